@@ -811,6 +811,9 @@ func (ex *Exec) applyContract(fr *Frame, st *State, ct *Contract, fn *ssa.Functi
 			cname = cname[i+2:] // interface method: "(Iface).Method"
 		}
 		for i, rq := range ex.contract.AtCall[cname] {
+			if !rq.applies() {
+				continue
+			}
 			env := mkEnv(st, ex.entry, false) // old() = the caller's entry state
 			// the callee's parameters by name, and behind them the caller's own parameters
 			// (callee parameters shadow them), and the caller's named locals that are live
@@ -822,7 +825,7 @@ func (ex *Exec) applyContract(fr *Frame, st *State, ct *Contract, fn *ssa.Functi
 				merged[k] = v
 				env.vars[k] = v
 			}
-			env.fr = &Frame{fn: fr.fn, params: merged, named: fr.named}
+			env.fr = &Frame{fn: fr.fn, params: merged, named: fr.named, namedHeap: fr.namedHeap}
 			ex.callerParams = fr.params
 			env.useLocals = true
 			if fr.fn.Pkg != nil {
